@@ -8,6 +8,7 @@ let () =
   let impl = if Array.length Sys.argv > 3 then Some (Array.of_list (Util.read_lines (open_in Sys.argv.(3)))) else None in
   let model, judge = match prop with
     | "c20" -> C20.model_line, Some C20.judge_line
+    | "c20x" -> Xpc20.model_line, Some Xpc20.judge_line
     | "optstr" -> C20.optstr_line, None
     | "c12" -> C12.model_line, Some C12.judge_line
     | "c11" -> C11.model_line, Some C11.judge_line
